@@ -13,6 +13,13 @@ let ec_point_ok (c : n) (pt : n list) : bool =
   (match ocall "ec_oncurve" [curve_name c] [x; y] with [b] -> int_of_n b = 1 | _ -> false)
 let ec_pub_of_priv (c : n) (d : n list) : n list option =
   if d = [] then None else ocall_opt "ecdh_pub" [curve_name c] [d]
+(* the standard library as model/Untrusted.v asks for it; C13's scope (the 16
+   key types it was built on) needs the two crypto/ecdh answers only *)
+let std : stdlib = {
+  ec_point_ok = ec_point_ok; ec_pub_of_priv = ec_pub_of_priv;
+  ed25519_pub = (fun _ -> failwith "outside C13"); mlkem_pub = (fun _ _ -> failwith "outside C13");
+  shake256 = (fun _ _ -> failwith "outside C13"); rsa_crt = (fun _ _ _ _ _ -> failwith "outside C13");
+  rsa_selfcheck = (fun _ _ _ _ _ _ _ _ -> failwith "outside C13") }
 
 let okerr = function Ok _ -> "ok" | Err -> "err" | Panic -> "PANIC-MODEL"
 let info_str (i : keyset_info) : string =
@@ -25,18 +32,18 @@ let handle line =
     let bin = unhex bin and kek = unhex kek and ad = unhex ad and tape = unhex tape in
     (match decode_keyset bin with
      | None -> failwith "undecodable"
-     | Some ks when any_unmodelled ks -> "U"
+     | Some ks when any_outside_c13 ks -> "U"
      | Some ks ->
-       let c = read ec_point_ok ec_pub_of_priv bin in
-       let n = handle_no_secrets ec_point_ok ec_pub_of_priv (Some ks) in
-       let rn = read_no_secrets ec_point_ok ec_pub_of_priv bin in
+       let c = read std bin in
+       let n = handle_no_secrets std (Some ks) in
+       let rn = read_no_secrets std bin in
        let head = Printf.sprintf "c:%s|n:%s|rn:%s|rj:%s" (okerr c) (okerr n) (okerr rn) (okerr rn) in
        (match c with
         | Ok h ->
           let w = (match write_no_secrets h with Ok b -> "ok:" ^ hexs b | Err -> "err" | Panic -> "PANIC-MODEL") in
           let info = info_of_handle h in
           let same = if bin2 = "-" then "-" else
-            (match read ec_point_ok ec_pub_of_priv (unhex bin2) with
+            (match read std (unhex bin2) with
              | Ok h2 -> if info_of_handle h2 = info then "1" else "0"
              | _ -> "0") in
           (* the key-encryption AEAD: Tink AES-GCM without prefix = iv || gcm_seal *)
@@ -47,12 +54,12 @@ let handle line =
           let enc = (match write_encrypted_binary enc_with h iv1 ad with Ok b -> b | _ -> []) in
           let jenc = encrypted_ct enc_with h iv2 ad in
           let jinfo = info_of_keyset (proto_of_handle h) in
-          let rd = (match read_encrypted ec_point_ok ec_pub_of_priv (dec_with kek) enc ad with
+          let rd = (match read_encrypted std (dec_with kek) enc ad with
             | Ok h' -> if info_of_handle h' = info then "ok=" else "ok!"
             | Err -> "err" | Panic -> "PANIC-MODEL") in
           let kek' = (match List.rev kek with [] -> [] | x :: t -> List.rev (n_of_int ((int_of_n x) lxor 1) :: t)) in
-          let wk = okerr (read_encrypted ec_point_ok ec_pub_of_priv (dec_with kek') enc ad) in
-          let wa = okerr (read_encrypted ec_point_ok ec_pub_of_priv (dec_with kek) enc (ad @ [n_of_int 1])) in
+          let wk = okerr (read_encrypted std (dec_with kek') enc ad) in
+          let wa = okerr (read_encrypted std (dec_with kek) enc (ad @ [n_of_int 1])) in
           Printf.sprintf "%s|w:%s|info:%s|same:%s|enc:%s|jenc:%s|jinfo:%s|rd:%s|wk:%s|wa:%s"
             head w (info_str info) same (hexs enc) (hexs jenc) (info_str jinfo) rd wk wa
         | _ -> head))
